@@ -231,7 +231,7 @@ def families(tier, seed):
     # 14. token topology x role: each role (start end group, capping end group, prefix, suffix, connector, repeat unit)
     #     with a ring, an aromatic ring, a branched, an unsaturated, a ring-with-bond-symbol-on-the-closure and (thorough) a
     #     fused-ring token, descriptor on the first atom / on the last atom / in the middle of the token
-    topo = {"ring": "C1CCCCC1", "aromatic": "c1ccccc1", "branched": "C(C)(C)CO", "unsaturated": "C(C#N)=C", "ringbond": "C1CCCC=C1",
+    topo = {"ring": "C1CCCCC1", "aromatic": "c1ccccc1", "branched": "C(C)(C)CO", "unsaturated": "C(C#N)=C", "ringbond": "C1CCCC=C1", "closurebond": "C1CCCC=1",
             # attachment atom in a higher valence state (sulfone / sulfoxide S, phosphate P): its hydrogen count after bonding
             "sulfone": "S(=O)(=O)C", "sulfoxide": "S(=O)C", "phosphate": "P(=O)(OC)O"}
     if thorough:
@@ -246,6 +246,14 @@ def families(tier, seed):
         yield Instance(f"topo-unit-side|{tn}", mol(tok("N"), sto("[>]", [u1, "[<]CO[>]"], ["[<]Cl"], "[<]", g0(round(1.2 * mass(u1), 3))), tok("F")), family="role-topology")
         u2 = "[<]" + body + "[>]"
         yield Instance(f"topo-unit-backbone|{tn}", mol(tok("N"), sto("[>]", [u2], [], "[<]", g0(round(1.5 * mass(u2), 3))), tok("F")), family="role-topology")
+    # 18. hand-over details: explicit connector whose two descriptors both carry weight 1 (or 2 / 1); two ADJACENT objects the
+    #     first of which is capped with heavy end groups at its hand-over; a list on the descriptor of the STARTING end group
+    yield Instance("conn-weights|1-1", mol(tok("N"), sto("[>]", [a], [], "[<]", g0(40.0)), tok("[<]C(=O)O[>]"), sto("[>]", [b], [], "[<]", g0(40.0)), tok("F")), family="handover-details")
+    yield Instance("conn-weights|2-1", mol(tok("N"), sto("[>]", [a], [], "[<]", g0(40.0)), tok("[<|2|]SC[>]"), sto("[>]", [b], [], "[<]", g0(40.0)), tok("F")), family="handover-details")
+    yield Instance("adjacent|branched-heavy-caps", mol(tok("C"), sto("[$]", ["[$]C([$])C[$]"], ["[$]CCCC"], "[$]", g0(30.0)), sto("[$]", ["[$]CC[$]"], [], "[$]", g0(60.0)), tok("O")), family="handover-details")
+    yield Instance("adjacent|branched-heavy-caps-dir", mol(tok("C"), sto("[>]", ["[<]C([>])C[>]"], ["[<]Br"], "[<]", g0(30.0)), sto("[>]", ["[<]CO[>]"], [], "[<]", g0(45.0)), tok("N")), family="handover-details")
+    yield Instance("start-endgroup-list", mol(sto("[]", ["[<]CC[>]", "[<]NC[>]"], ["[>|0 0 1 0 0 0|]F", "[<|0|]Cl"], "[]", g0(40.0))), family="handover-details")
+    yield Instance("start-endgroup-list-sym", mol(sto("[]", ["[$]CC[$]", "[$]NC[$|2|]"], ["[$|0 0 1 1 0 0|]F", "[$|0|]Cl"], "[]", g0(40.0))), family="handover-details")
     # 17. mono-functional repeat units (chain stoppers): a random path can use up the last open descriptor before the
     #     following element attaches - the notation then has no molecule for that path, the library must raise there
     yield Instance("stopper|sym", mol(tok("N"), sto("[$]", ["[$]CC[$]", "[$|0.3|]F"], [], "[$]", g0(60.0)), tok("O")), family="chain-stopper")
